@@ -271,6 +271,30 @@ def run_gi(case, agg):
 
 # -- output directory reused (a second run into a directory that already holds longer artifacts) ----------------
 
+def create_from_artifacts(od, hname, workdir=None):
+    """create consumes the artifact files of `od` -> problems (compared with the files as they are on disk NOW)"""
+    problems = []
+    desc = gen.in_params({
+        "suit-parameter-encryption-info": {"file": os.path.join(od, "suit_encryption_info.bin")},
+        **({"suit-parameter-image-digest": gen.digest(hname, {"file_direct": os.path.join(od, "plain_text_digest.bin")}),
+            "suit-parameter-image-size": {"file_direct": os.path.join(od, "plain_text_size.txt")}} if hname else {})})
+    try:
+        envb = impl.tool_create_main(desc, workdir, "yaml") if workdir else impl.tool_create(desc)
+        env, raw = impl.envelope_members(envb)
+        man = refcbor.decode(env.get(3).value)
+        seq = refcbor.decode(man.get(7).value)
+        pm = seq.items[1]
+        if pm.get(19).raw(man.get(7).value) != open(os.path.join(od, "suit_encryption_info.bin"), "rb").read():
+            problems.append(("create-alters-info", "create does not carry the suit_encryption_info.bin that is in the directory under parameter 19"))
+        if hname:
+            dgi = refcbor.decode(pm.get(3).value)
+            if dgi.items[1].value != open(os.path.join(od, "plain_text_digest.bin"), "rb").read() or str(pm.get(14).value) != open(os.path.join(od, "plain_text_size.txt")).read().strip():
+                problems.append(("create-pipeline", "digest/size in the envelope are not those of the artifact files in the directory"))
+    except Exception as e:
+        problems.append(("create-rejects-info", f"create with the artifacts failed: {type(e).__name__}: {str(e)[:200]}"))
+    return problems
+
+
 def rewrite_cases(tier):
     out = []
     for l1, l2 in itertools.product((5000, 16, 0), repeat=2):
@@ -308,6 +332,11 @@ def run_rewrite(case, agg):
                     last = ("gi", blob, kid, None)
             except Exception as e:
                 agg.viol(f"C06:rewrite-failed/{type(e).__name__}", f"{label}: {type(e).__name__}: {str(e)[:200]}")
+                return
+            # the build step that follows every encryption: create an envelope from the artifacts of the directory
+            pr = create_from_artifacts(od, HNAME[h] if sub == "enc" else None, workdir=d if step else None)
+            if pr:
+                agg.viol(f"C06:rewrite/{pr[0][0]}", f"{label}: create after run {step + 1}: " + "; ".join(p[1] for p in pr[:2]))
                 return
         kind, data, kid, h = last
         if kind == "enc":
@@ -454,6 +483,60 @@ def run_keyname(case, agg):
         agg.viol(f"C06:key-name/{problems[0][0]}", f"{label}: " + "; ".join(p[1] for p in problems[:2]))
     else:
         agg.ok(h8("c06k", case), f"ok:key-name:{case['via']}", sample=case if case["via"] == "cli" and case["L"] else None)
+
+# -- key files whose 32 bytes happen to look like text ----------------------------------------------------------
+KEY_BYTES = {
+    "hex-ascii": b"0123456789abcdef0123456789ABCDEF",
+    "digits": b"12345678901234567890123456789012",
+    "base64-ascii": b"QUJDREVGR0hJSktMTU5PUFFSU1RVVg==",
+    "ends-with-newline": bytes(range(101, 132)) + b"\n",
+    "starts-and-ends-with-blanks": b" \t" + bytes(range(140, 168)) + b"\r\n",
+    "utf8-bom": b"\xef\xbb\xbf" + bytes(range(200, 229)),
+    "zeros": bytes(32),
+    "armour-like": b"-----BEGIN AES256 KEY-----\n=\n\n\n\n",
+}
+
+
+def keybytes_cases(tier):
+    return [{"kb": k, "via": v, "L": L} for k in KEY_BYTES for v in ("object", "main") for L in (0, 33)]
+
+
+def run_keybytes(case, agg):
+    """the named key file is 32 arbitrary bytes: also when they are all hex digits, decimal digits, base64 characters,
+    end in a line break, begin with a byte-order mark or look like armour - the key is those bytes, as they are"""
+    from suit_generator import cmd_encrypt
+    from suit_generator.suit_encrypt_script_base import SuitDigestAlgorithms, SuitKWAlgorithms
+    es, ks = escripts()
+    kb = KEY_BYTES[case["kb"]]
+    assert len(kb) == 32, case
+    pt = plaintext(case["L"], 6)
+    label = f"encrypt-and-generate with a key file whose bytes are {case['kb']} via {case['via']} ({case['L']} bytes)"
+    with fresh_dir("c06b") as d:
+        od, kd = os.path.join(d, "out"), os.path.join(d, "keys")
+        os.makedirs(od)
+        os.makedirs(kd)
+        open(os.path.join(kd, "fwkey.bin"), "wb").write(kb)
+        fw = os.path.join(d, "fw.bin")
+        open(fw, "wb").write(pt)
+        try:
+            if case["via"] == "main":
+                cmd_encrypt.main(encrypt_subcommand="encrypt-and-generate", firmware=fw, key_name="fwkey", key_id=9, context=kd,
+                                 output_dir=od, hash_alg="sha-256", kw_alg="direct", kms_script=ks, encrypt_script=es)
+            else:
+                ep, tag, info, dg, n = _encryptor().encrypt_and_generate(pt, "fwkey", 9, kd, SuitDigestAlgorithms("sha-256"), SuitKWAlgorithms("direct"), ks)
+                open(os.path.join(od, "plain_text_digest.bin"), "wb").write(dg)
+                open(os.path.join(od, "plain_text_size.txt"), "w").write(str(n))
+                open(os.path.join(od, "suit_encryption_info.bin"), "wb").write(info)
+                open(os.path.join(od, "encrypted_content.bin"), "wb").write(tag + ep)
+        except Exception as e:
+            agg.viol(f"C06:key-bytes/encrypt-failed/{type(e).__name__}", f"{label}: {type(e).__name__}: {str(e)[-300:]}")
+            return
+        r = check_artifacts(od, kb, pt, 9, "sha-256")
+        problems = r[0] if isinstance(r, tuple) else r
+    if problems:
+        agg.viol(f"C06:key-bytes/{problems[0][0]}", f"{label}: " + "; ".join(p[1] for p in problems[:2]))
+    else:
+        agg.ok(h8("c06b", case), f"ok:key-bytes:{case['via']}", sample=case if case["via"] == "main" and case["L"] and case["kb"] == "hex-ascii" else None)
 
 
 INPLACE = [("enc", "encrypted_content.bin"), ("enc", "plain_text_digest.bin"), ("enc", "plain_text_size.txt"), ("enc", "suit_encryption_info.bin"),
@@ -621,6 +704,7 @@ def plan(tier):
                   rule="all sequences of <= 3 encryptions {stock, second KMS script of the same file name} x {main, new Encryptor, reused Encryptor}; "
                        "sequences of <= 2 also with NCS_SUIT_KMS_SCRIPT / ZEPHYR_BASE naming other scripts"),
         CaseStage("key-names", lambda: keyname_cases(tier), run_keyname, chunk=1, rule="AES key names with dots (sibling with the truncated name present / absent) x library / main / CLI"),
+        CaseStage("key-file-contents", lambda: keybytes_cases(tier), run_keybytes, rule="8 key files whose 32 bytes look like text (hex, digits, base64, line break at the end, BOM, armour) x library / main x 2 lengths"),
         CaseStage("input-at-output-path", lambda: inplace_cases(tier), run_inplace, chunk=1,
                   rule="every input of both sub-commands stored under every artifact name of the output directory x main / CLI"),
         CaseStage("encrypt-and-generate", lambda: enc_cases(tier), run_enc, disjoint=True, rule="length x key id x digest alg x entry path"),
